@@ -10,7 +10,7 @@
    source on every run. *)
 From Coq Require Import ZArith NArith List Bool.
 Import ListNotations.
-Require Import SR.Base.Res SR.Base.Dec SR.Gen.EstructParams SR.Gen.Cp037.
+Require Import SR.Base.Res SR.Base.Dec SR.Gen.EstructParams SR.Gen.TextCodec.
 Open Scope N_scope.
 
 Record pic := mkpic { p_signed : bool; p_int : nat; p_frac : nat }.
@@ -53,10 +53,11 @@ Definition unpack_zoned (p : pic) (buffer : list N) : res pyval :=
     end.
 
 (* ---- DISPLAY, text: X(k) ---- *)
-Definition cp037 (b : N) : N := nth (N.to_nat b) cp037_table 65533.
+(* bytes.decode(<the codec the source names>) *)
+Definition text_decode (b : N) : N := nth (N.to_nat b) text_table 65533.
 
 Definition unpack_text (k : nat) (buffer : list N) : res pyval :=
-  let text := map cp037 buffer in
+  let text := map text_decode buffer in
   (* re.match(k dots, text, DOTALL): a prefix match *)
   if (k <=? length text)%nat && (text_dotall || negb (existsb (N.eqb 10) (firstn k text)))
   then Ok (VStr text) else Err ValueError.
